@@ -82,6 +82,10 @@ def _mono_pair(u, v):  # monoclinic (unique axis y): B pair in the mirror plane,
     return ["A", "B", "B"], [[0, 0, 0], [u, 0, v], [-u, 0, -v]]
 
 
+def _mixed(u, v):  # same species on two different Wyckoff orbits, listed interleaved: symmetrize() has to reorder the WFs
+    return ["X", "X", "X"], [[0, 0, u], [0.5, 0.5, 0], [0, 0, -u]]
+
+
 def _afm(u, v):
     return ["Mn", "Mn"], [[0, 0, 0], [0.5, 0.5, 0.5]]
 
@@ -130,6 +134,8 @@ LIB = {
                          mag={"fm_z": [[0, 0, 1]], "fm_x": [[1, 0, 0]]}),
     "ortho_polar": dict(lat="orthorhombic", atoms=_polar2, proj=[["A:s", "B:s"], ["A:p", "B:s"], ["A:s", "B:pz"]],
                         mag={"fm_z": [[0, 0, 1], [0, 0, 0]], "fm_y": [[0, 1, 0], [0, 0, 0]]}),
+    "ortho_mixed": dict(lat="orthorhombic", atoms=_mixed, proj=[["X:s"], ["X:p"], ["X:pz"], ["X:s", "X:p"]],
+                        mag={"fm_z": [[0, 0, 1]] * 3}),
     "monoclinic": dict(lat="monoclinic", atoms=_mono_pair, proj=[["A:s", "B:s"], ["A:p", "B:s"], ["A:s", "B:p"]],
                        mag={"fm_y": [[0, 1, 0], [0, 0, 0], [0, 0, 0]]}),
     "triclinic": dict(lat="triclinic", atoms=_pair_inv, proj=[["A:s", "B:s"], ["A:p", "B:s"], ["A:s", "B:p"], ["A:d", "B:s"]],
@@ -154,7 +160,7 @@ def variants(name):
 FAMILIES = {
     "cubic": ["sc", "cscl", "zincblende", "diamond", "fcc", "bcc", "afm_cscl"],
     "hexagonal": ["graphene", "graphene60", "hbn", "hex1", "kagome", "chain", "wurtzite", "rhombo"],
-    "lowsym": ["tetragonal", "tetra_polar", "afm_tetra", "orthorhombic", "ortho_polar", "monoclinic", "triclinic"],
+    "lowsym": ["tetragonal", "tetra_polar", "afm_tetra", "orthorhombic", "ortho_polar", "ortho_mixed", "monoclinic", "triclinic"],
 }
 
 
